@@ -10,7 +10,20 @@ scratch directory and
 is run in FRESH processes: twice with the same seed and different PYTHONHASHSEED (the
 property pairs), for some worlds a third time with the same hash seed (control: whatever
 differs there does not depend on hash order) and once with another --random_seed (negative
-control: the comparator must see a difference).  The two CSV files of a pair are split into
+control: the comparator must see a difference).
+
+The same is done for every other workload mode that can run offline (harness/c09_modes.py):
+`--execution_mode=replay --replay_trace=alibaba` with generated pickled traces (DAGs whose joins
+are listed before their parents, multi-parent tasks, several jobs and files, every release
+policy of the loader), and - through harness/c09_driver.py, which performs main.main's steps -
+the loaders main.py constructs but then refuses to run (TaskLoaderPylot,
+WorkloadLoaderClockworkBursty).  The execution modes / policies of main.py that end before
+anything is simulated (synthetic, benchmark, replay/pylot, BranchPrediction, Clockwork on an
+Alibaba trace) are run once each so that the evidence says how they end.  Per mode TLC reports
+how far the runs got (RunShape); a mode whose runs did not simulate is a machinery failure,
+and every mode has its own equal-hash-seed control and negative control.
+
+The two CSV files of a pair are split into
 columns (no interpretation) and handed to TLC: `spec/Determinism.tla` walks both row sequences
 in lock-step, knows which columns are observable (`Obs`), checks `C09_SameChoices` and names
 position, clause and differing columns of every divergence.  Python only generates inputs,
@@ -28,7 +41,7 @@ import subprocess
 import time
 from concurrent.futures import ThreadPoolExecutor
 
-from . import c19, mcgen, tlaval, tlc
+from . import c09_modes, c19, mcgen, tlaval, tlc
 from .common import PY, REPO, CheckResult, Scratch, rng, seed
 
 ABSENT = c19.ABSENT
@@ -36,8 +49,8 @@ MASKED_FLAGS = {"log", "log_file_name", "csv", "csv_file_name"}
 WINDOW = 48  # longest permuted block looked for (rows)
 CPU_LIMIT_S = 900  # CPU seconds of one main.py process (not wall clock)
 WALL_LIMIT_S = 4 * 3600  # generous: exceeding it is a machinery failure, never a verdict
-JAVA_OPTS = mcgen.LIB_OPT + ["-XX:TieredStopAtLevel=1", "-Xss16m"]
-PAIRS_PER_TLC = {"quick": 5, "thorough": 16}
+JAVA_OPTS = mcgen.LIB_OPT + ["-XX:TieredStopAtLevel=1", "-Xss16m", "-XX:ParallelGCThreads=2"]
+PAIRS_PER_TLC = {"quick": 6, "thorough": 16}
 CLAUSES = ["C09.length", "C09.order", "C09.ids", "C09.times", "C09.placement", "C09.summary", "C09.rows"]
 
 ASSUMPTIONS = [
@@ -52,6 +65,14 @@ ASSUMPTIONS = [
     "a sampled comparison cannot prove the absence of hidden nondeterminism (level: exploration); both traces being "
     "behaviours of Simulator.tla is SimTrace's subject (C01-C08), not re-checked here",
     "two processes on one machine: different machines / Python builds are not sampled",
+    "modes lib_pylot / lib_clockwork_bursty: harness/c09_driver.py performs the steps of main.main (flag definitions "
+    "imported from main.py, random.seed, csv logger and flag echo, loader built from the flags, policy and WorkerLoader "
+    "as in main.main, Simulator.simulate) around the NotImplementedError main.py raises after constructing these "
+    "loaders; their runs end with an AttributeError at the first completed task graph (Workload.from_task_graphs "
+    "graphs have no JobGraph): the rows written until then are the trace",
+    "Alibaba traces are generated (format of the loader's Task dataclass; 100 < critical path < 1000 as the loader "
+    "requires for a release); the real cluster trace is not available offline",
+    "child processes run with OPENBLAS_NUM_THREADS=1 / OMP_NUM_THREADS=1 (both runs of a pair alike)",
 ]
 
 
@@ -173,7 +194,12 @@ def gen_world(k):
         flags["replication_factor"] = 2
     if clockwork:
         flags["scheduler_run_load"] = bool(k % 8 != 7)
-    return {"k": k, "id": f"w{k:04d}", "policy": policy, "stochastic_arrivals": stochastic, "shapes": shapes, "wfmt": wfmt, "cfmt": cfmt,
+    flags["workload_profile_path"] = f"{{DIR}}/workload.{wfmt}"
+    flags["worker_profile_path"] = f"{{DIR}}/workers.{cfmt}"
+    return {"k": k, "id": f"w{k:04d}", "mode": "workload_file", "entry": "main.py", "expect_exit": "legacy",
+            "files": [{"name": f"workload.{wfmt}", "fmt": wfmt, "content": workload},
+                      {"name": f"workers.{cfmt}", "fmt": cfmt, "content": cluster}],
+            "policy": policy, "stochastic_arrivals": stochastic, "shapes": shapes, "wfmt": wfmt, "cfmt": cfmt,
             "workload": workload, "cluster": cluster, "flags": flags,
             "graphs": [{"name": g["name"], "policy": g["policy"], "variance": list(g["variance"]),
                         "invocations": g["invocations"],
@@ -181,38 +207,25 @@ def gen_world(k):
             "n_resource_names": len(names)}
 
 
-def _dump(obj, path, fmt):
-    with open(path, "w") as f:
-        if fmt == "json":
-            json.dump(obj, f, indent=1)
-        else:
-            import yaml
-
-            yaml.safe_dump(obj, f, sort_keys=False)
-
-
-def flag_lines(world, wpath, cpath):
+def flag_lines(world, d):
+    """flagfile lines of a world whose files live in directory d"""
     lines = []
     for k, v in world["flags"].items():
         if isinstance(v, bool):
             lines.append(f"--{k}" if v else f"--no{k}")
         else:
-            lines.append(f"--{k}={v}")
-    lines.append(f"--workload_profile_path={wpath}")
-    lines.append(f"--worker_profile_path={cpath}")
+            lines.append(f"--{k}={v}".replace("{DIR}", d))
     return lines
 
 
 def write_world(world, scratch):
     d = os.path.join(scratch, world["id"])
     os.makedirs(d, exist_ok=True)
-    wpath = os.path.join(d, f"workload.{world['wfmt']}")
-    cpath = os.path.join(d, f"workers.{world['cfmt']}")
-    _dump(world["workload"], wpath, world["wfmt"])
-    _dump(world["cluster"], cpath, world["cfmt"])
+    for f in world["files"]:
+        c09_modes.write_file(os.path.join(d, f["name"]), f["fmt"], f["content"])
     ff = os.path.join(d, "flags.conf")
     with open(ff, "w") as f:
-        f.write("\n".join(flag_lines(world, wpath, cpath)) + "\n")
+        f.write("\n".join(flag_lines(world, d)) + "\n")
     return d, ff
 
 
@@ -222,23 +235,31 @@ def write_world(world, scratch):
 _UUID = re.compile(r"[0-9a-f]{8}-[0-9a-f]{4}-[0-9a-f]{4}-[0-9a-f]{4}-[0-9a-f]{12}")
 
 
-def _limit():
-    resource.setrlimit(resource.RLIMIT_CPU, (CPU_LIMIT_S, CPU_LIMIT_S + 5))
+def _limit(cpu_s):
+    def f():
+        resource.setrlimit(resource.RLIMIT_CPU, (cpu_s, cpu_s + 5))
+    return f
 
 
 def run_main(job):
-    """job = (run id, dir, flagfile, random seed, hash seed) -> dict(rows, exit signature, ...)"""
-    rid, d, ff, rseed, hseed = job
+    """job = (run id, dir, flagfile, random seed, hash seed[, program, CPU limit]) -> dict(rows, exit signature, ...)
+
+    program: `main.py` of the repository or harness/c09_driver.py (loaders main.py constructs but does not run)"""
+    rid, d, ff, rseed, hseed = job[:5]
+    entry = job[5] if len(job) > 5 else "main.py"
+    cpu_s = job[6] if len(job) > 6 else CPU_LIMIT_S
     csv = os.path.join(d, f"{rid}.csv")
     log = os.path.join(d, f"{rid}.log")
     env = {k: v for k, v in os.environ.items() if k not in ("PYTHONHASHSEED", "PYTHONPATH", "ERDOS_VERIF_TRACE")}
-    env.update(PYTHONHASHSEED=str(hseed), PYTHONPATH=REPO, PYTHONDONTWRITEBYTECODE="1")
-    cmd = [PY, "main.py", f"--flagfile={ff}", f"--random_seed={rseed}", f"--csv={csv}", f"--log={log}",
+    # one BLAS / OpenMP thread: numpy starts a thread pool per process that this workload never uses
+    env.update(PYTHONHASHSEED=str(hseed), PYTHONPATH=REPO, PYTHONDONTWRITEBYTECODE="1", OPENBLAS_NUM_THREADS="1",
+               OMP_NUM_THREADS="1")
+    cmd = [PY, entry, f"--flagfile={ff}", f"--random_seed={rseed}", f"--csv={csv}", f"--log={log}",
            "--log_level=info"]
     t0 = time.time()
     try:
         p = subprocess.run(cmd, cwd=REPO, env=env, capture_output=True, text=True, timeout=WALL_LIMIT_S,
-                           preexec_fn=_limit)
+                           preexec_fn=_limit(cpu_s))
     except subprocess.TimeoutExpired:
         raise MachineryError(f"main.py exceeded the wall limit of {WALL_LIMIT_S}s: {' '.join(cmd)}")
     out = {"rid": rid, "seed": rseed, "hash": hseed, "rc": p.returncode, "wall_s": round(time.time() - t0, 2),
@@ -246,7 +267,7 @@ def run_main(job):
     if p.returncode == 0:
         out["exit"] = ["ok", ""]
     elif p.returncode in (-24, -9):  # SIGXCPU / SIGKILL after the CPU limit
-        out["exit"] = ["cpu_limit", f"{CPU_LIMIT_S}s"]
+        out["exit"] = ["cpu_limit", f"{cpu_s}s"]
     else:
         tail = [ln for ln in p.stderr.strip().splitlines() if ln.strip()]
         last = tail[-1] if tail else f"rc={p.returncode}"
@@ -314,7 +335,7 @@ def parse_output(out):
                     lst.append({"k": val[2], "clause": val[3], "hint": val[4], "a": list(val[5]), "b": list(val[6])})
             else:
                 ends[val[1]] = {"compared": val[2], "len_a": val[3], "len_b": val[4], "nord": val[5],
-                                "last": val[6], "same": val[7]}
+                                "last": val[6], "same": val[7], "shape_a": list(val[8]), "shape_b": list(val[9])}
         i += 1
     return divs, ends
 
@@ -469,8 +490,31 @@ def _spread(n, total, offset):
     return out
 
 
+HASH_PAIRS = [(1, 2), (0, 3), (2, 7), (5, 11), (1, 4242), (3, 1)]
+
+# workload modes: (generator, number of worlds quick / thorough, same-hash controls q / t, negative controls q / t)
+EXTRA_MODES = [
+    ("alibaba_replay", c09_modes.gen_alibaba_world, (14, 220), (2, 40), (2, 40)),
+    ("lib_pylot", c09_modes.gen_pylot_world, (4, 60), (1, 12), (1, 12)),
+    ("lib_clockwork_bursty", c09_modes.gen_bursty_world, (3, 40), (1, 8), (1, 8)),
+]
+NEW_MODE_CPU_LIMIT_S = 300
+# a mode counts as exercised only when TLC's RunShape of both traces says that the runs simulated something
+MIN_RAN_FRACTION = 0.75
+
+
+def _seed_for(r, k):
+    """boundary seeds 0 and 1 (0 is falsy) in every mode, small and large seeds otherwise"""
+    s = r.randint(0, 2**31 - 1) if k % 3 else r.randint(0, 50)
+    if k % 12 in (0, 1):
+        s = 0  # boundary seed: 0 is falsy, and both a Poisson/Gamma world and a plain one must get it
+    elif k % 12 in (2, 3):
+        s = 1
+    return s
+
+
 def plan(tier):
-    """-> worlds, runs (rid -> (world k, seed, hash)), pairs [(pair id, kind, rid a, rid b)]"""
+    """-> worlds, runs (rid -> (world id, seed, hash)), pairs [(pair id, kind, rid a, rid b)]"""
     q = tier == "quick"
     r = rng("c09-plan")
     nworlds = 12 if q else 260
@@ -478,42 +522,59 @@ def plan(tier):
     n_neg = 4 if q else 70
     worlds = [gen_world(k) for k in range(nworlds)]
     runs, pairs = {}, []
-    hash_pairs = [(1, 2), (0, 3), (2, 7), (5, 11), (1, 4242), (3, 1)]
     ctrl, negs = _spread(n_ctrl, nworlds, 0), _spread(n_neg, nworlds, 2)
+
+    def add(w, s, h1, h2, is_ctrl, is_neg, rr):
+        a, b = f"{w['id']}_s{s}_h{h1}", f"{w['id']}_s{s}_h{h2}"
+        runs[a], runs[b] = (w["id"], s, h1), (w["id"], s, h2)
+        pairs.append((f"{w['id']}/seed{s}/hash{h1}-{h2}", "property", a, b))
+        if is_ctrl:
+            c = f"{w['id']}_s{s}_h{h1}_again"
+            runs[c] = (w["id"], s, h1)
+            pairs.append((f"{w['id']}/seed{s}/hash{h1}-{h1}", "same_hash", a, c))
+        if is_neg:
+            s2 = s + 1 + rr.randint(0, 1000)
+            c = f"{w['id']}_s{s2}_h{h1}"
+            runs[c] = (w["id"], s2, h1)
+            pairs.append((f"{w['id']}/seed{s}-{s2}/hash{h1}-{h1}", "negative", a, c))
+
     for w in worlds:
         k = w["k"]
-        s = r.randint(0, 2**31 - 1) if k % 3 else r.randint(0, 50)
-        if k % 12 in (0, 1):
-            s = 0  # boundary seed: 0 is falsy, and both a Poisson/Gamma world and a plain one must get it
-        elif k % 12 in (2, 3):
-            s = 1
-        h1, h2 = hash_pairs[0] if q else hash_pairs[k % len(hash_pairs)]
-        a, b = f"{w['id']}_s{s}_h{h1}", f"{w['id']}_s{s}_h{h2}"
-        runs[a], runs[b] = (k, s, h1), (k, s, h2)
-        pairs.append((f"{w['id']}/seed{s}/hash{h1}-{h2}", "property", a, b))
-        if k in ctrl:
-            c = f"{w['id']}_s{s}_h{h1}_again"
-            runs[c] = (k, s, h1)
-            pairs.append((f"{w['id']}/seed{s}/hash{h1}-{h1}", "same_hash", a, c))
-        if k in negs:
-            s2 = s + 1 + r.randint(0, 1000)
-            c = f"{w['id']}_s{s2}_h{h1}"
-            runs[c] = (k, s2, h1)
-            pairs.append((f"{w['id']}/seed{s}-{s2}/hash{h1}-{h1}", "negative", a, c))
+        h1, h2 = HASH_PAIRS[0] if q else HASH_PAIRS[k % len(HASH_PAIRS)]
+        add(w, _seed_for(r, k), h1, h2, k in ctrl, k in negs, r)
+    # the other workload modes: hash-seed pairs cycle in both tiers (the order of a set of strings under two given hash
+    # seeds may coincide for a particular input)
+    for mode, gen, nw, nc, nn in EXTRA_MODES:
+        n = nw[0] if q else nw[1]
+        rm = rng(f"c09-plan-{mode}")
+        mctrl, mneg = _spread(nc[0] if q else nc[1], n, 1), _spread(nn[0] if q else nn[1], n, 3)
+        for k in range(n):
+            w = gen(k)
+            worlds.append(w)
+            h1, h2 = HASH_PAIRS[k % len(HASH_PAIRS)]
+            add(w, _seed_for(rm, k), h1, h2, k in mctrl, k in mneg, rm)
+    bp = gen_world(0)
+    bp.update(id="stub_policy_branch_prediction", mode="stub_policy_branch_prediction", policy="BranchPrediction",
+              expect_exit="any", flags=dict(bp["flags"], scheduler="BranchPrediction", scheduler_policy="random"))
+    for w in c09_modes.gen_stub_worlds() + [bp]:
+        worlds.append(w)
+        add(w, 1, 1, 2, False, False, r)
     return worlds, runs, pairs
 
 
 def _world_size(w):
-    return len(json.dumps(w["workload"])) + len(json.dumps(w["cluster"]))
+    return sum(len(json.dumps(f["content"])) for f in w["files"])
 
 
 def compare(tier, worlds, runs, pairs, res, procs=None):
     """run everything, hand the pairs to TLC; returns per pair records"""
     procs = procs or min(16, os.cpu_count() or 4)
-    byk = {w["k"]: w for w in worlds}
+    byid = {w["id"]: w for w in worlds}
     with Scratch(prefix="erdosverif_c09_") as scratch:
-        dirs = {w["k"]: write_world(w, scratch) for w in worlds}
-        jobs = [(rid, dirs[k][0], dirs[k][1], s, h) for rid, (k, s, h) in runs.items()]
+        dirs = {w["id"]: write_world(w, scratch) for w in worlds}
+        jobs = [(rid, dirs[wid][0], dirs[wid][1], s, h, byid[wid]["entry"],
+                 CPU_LIMIT_S if byid[wid]["mode"] == "workload_file" else NEW_MODE_CPU_LIMIT_S)
+                for rid, (wid, s, h) in runs.items()]
         t0 = time.time()
         with ThreadPoolExecutor(procs) as ex:
             results = {o["rid"]: o for o in ex.map(run_main, jobs)}
@@ -521,8 +582,10 @@ def compare(tier, worlds, runs, pairs, res, procs=None):
         recs, skipped = [], []
         for pid, kind, ra, rb in pairs:
             A, B = results[ra], results[rb]
-            w = byk[runs[ra][0]]
-            if A["exit"][0] != "ok" and A["exit"] == B["exit"]:
+            w = byid[runs[ra][0]]
+            # YAML / JSON descriptions: some generated worlds run into known crashes of the simulator (C05's subject);
+            # in the other modes the rows written before the end are compared however the processes end
+            if w["expect_exit"] == "legacy" and A["exit"][0] != "ok" and A["exit"] == B["exit"]:
                 skipped.append({"pair": pid, "kind": kind, "exit": A["exit"], "policy": w["policy"], "flags": w["flags"]})
                 continue
             recs.append({"id": pid, "kind": kind, "world": w, "ra": A, "rb": B,
@@ -533,20 +596,16 @@ def compare(tier, worlds, runs, pairs, res, procs=None):
         allp = recs + syn
         batches = [(scratch, n, allp[x:x + per]) for n, x in enumerate(range(0, len(allp), per))]
         t0 = time.time()
-        with ThreadPoolExecutor(max(1, min(procs // 2, len(batches) or 1))) as ex:
+        with ThreadPoolExecutor(max(1, min(procs * 3 // 4, len(batches) or 1))) as ex:  # one TLC worker per JVM
             outs = list(ex.map(tlc_batch, batches))
         t_tlc = time.time() - t0
-        flagfiles = {}
-        for w in worlds:
-            with open(dirs[w["k"]][1]) as f:
-                flagfiles[w["k"]] = f.read().splitlines()
     for (_, n, prs), (r, divs, ends) in zip(batches, outs):
         res.add_tlc(f"Determinism/batch{n} ({len(prs)} pairs)", r)
         for p in prs:
             p["divs"] = divs.get(p["id"], [])
             p["end"] = ends[p["id"]]
             if p["kind"] != "selftest":
-                p["flagfile"] = flagfiles[p["world"]["k"]]
+                p["flagfile"] = flag_lines(p["world"], "{DIR}")
     # the classifier itself: every clause is reachable and named as intended (machinery check, no verdict)
     st = {}
     for p in syn:
@@ -566,8 +625,8 @@ def _detail(p, dv):
     k = dv["k"]
     return {
         "pair": p["id"], "pair_kind": p["kind"],
-        "world": {"policy": w["policy"], "workload_file": f"workload.{w['wfmt']}", "workload": w["workload"],
-                  "workers_file": f"workers.{w['cfmt']}", "workers": w["cluster"], "flagfile": p["flagfile"]},
+        "world": {"mode": w["mode"], "policy": w["policy"], "program": os.path.basename(w["entry"]),
+                  "files": w["files"], "flagfile": p["flagfile"], "features": w.get("features", {})},
         "random_seed": [A["seed"], B["seed"]], "hash_seeds": [A["hash"], B["hash"]],
         "commands": [A["cmd"], B["cmd"]], "exit": [A["exit"], B["exit"]],
         "position": k, "clause": dv["clause"], "hint": _plain(dv["hint"]),
@@ -586,7 +645,80 @@ def _plain(v):
     return v
 
 
-def report(res, recs, skipped, results):
+def _ran(w, p):
+    """did both runs of the pair simulate something?  (RunShape: <<releases, placements, finished, SIMULATOR_END>>, from TLC)"""
+    sa, sb = p["end"]["shape_a"], p["end"]["shape_b"]
+    if w["mode"] in ("workload_file", "alibaba_replay"):
+        return all(x[0] >= 1 and x[1] >= 1 and x[2] >= 1 and x[3] == 1 for x in (sa, sb)) and \
+            p["ra"]["exit"][0] == "ok" and p["rb"]["exit"][0] == "ok"
+    # static workloads handed to the Simulator end with an AttributeError at the first completed graph (no JobGraph)
+    return all(x[0] >= 1 and x[1] >= 1 for x in (sa, sb))
+
+
+def mode_report(res, recs, skipped, worlds):
+    """per workload mode: what ran, how it ended, what was compared; a mode that did not run is a machinery failure"""
+    modes = {}
+    for w in worlds:
+        m = modes.setdefault(w["mode"], {"program": os.path.basename(w["entry"]), "worlds": 0, "policies": {},
+                                         "pairs": {"property": 0, "same_hash": 0, "negative": 0},
+                                         "pairs_that_simulated": {"property": 0, "same_hash": 0, "negative": 0},
+                                         "identical_on_Obs": {"property": 0, "same_hash": 0},
+                                         "rows_compared": 0, "exits": {}, "releases": 0, "placements": 0,
+                                         "finished_tasks": 0, "features": {}})
+        m["worlds"] += 1
+        m["policies"][w["policy"]] = m["policies"].get(w["policy"], 0) + 1
+        for k, v in w.get("features", {}).items():
+            f = m["features"]
+            if isinstance(v, bool):
+                f[k] = f.get(k, 0) + int(v)
+            elif isinstance(v, int):
+                f[k] = f.get(k, 0) + v
+            elif isinstance(v, str):
+                f.setdefault(k, {})
+                f[k][v] = f[k].get(v, 0) + 1
+            elif isinstance(v, list):
+                f.setdefault(k, {})
+                for x in v:
+                    f[k][x] = f[k].get(x, 0) + 1
+    for p in recs:
+        w = p["world"]
+        m = modes[w["mode"]]
+        m["pairs"][p["kind"]] += 1
+        ran = _ran(w, p)
+        m["pairs_that_simulated"][p["kind"]] += int(ran)
+        if p["kind"] != "negative" and not p["divs"]:
+            m["identical_on_Obs"][p["kind"]] += 1
+        m["rows_compared"] += p["end"]["compared"]
+        if p["kind"] == "property":
+            sa = p["end"]["shape_a"]
+            m["releases"] += sa[0]
+            m["placements"] += sa[1]
+            m["finished_tasks"] += sa[2]
+        for o in (p["ra"], p["rb"]):
+            e = f"{o['exit'][0]}:{o['exit'][1].split(':')[0][:80]}" if o["exit"][0] != "ok" else "ok"
+            m["exits"][e] = m["exits"].get(e, 0) + 1
+    res.extra["modes"] = modes
+    res.extra["modes_not_started"] = c09_modes.NOT_STARTED
+    problems = []
+    for name, m in modes.items():
+        if name.startswith("stub_"):
+            m["note"] = "main.py cannot simulate in this execution mode / with this policy: see exits"
+            continue
+        if name == "workload_file":
+            # generated descriptions may run into known crashes of the simulator (skipped pairs) or finish nothing
+            if m["pairs_that_simulated"]["property"] * 3 < m["worlds"]:
+                problems.append(f"mode {name}: {m['pairs_that_simulated']['property']} of {m['worlds']} worlds simulated "
+                                f"anything (exits: {m['exits']})")
+            continue
+        for kind in ("property", "same_hash"):
+            n, ok = m["pairs"][kind], m["pairs_that_simulated"][kind]
+            if n == 0 or ok < MIN_RAN_FRACTION * n:
+                problems.append(f"mode {name}: {ok} of {n} {kind} pairs simulated anything (exits: {m['exits']})")
+    if problems:
+        raise MachineryError("a workload mode did not run:\n  " + "\n  ".join(problems))
+
+
+def report(res, recs, skipped, results, worlds):
     prop = [p for p in recs if p["kind"] in ("property", "same_hash")]
     neg = [p for p in recs if p["kind"] == "negative"]
     res.traces_validated = 2 * len(recs)
@@ -596,10 +728,13 @@ def report(res, recs, skipped, results):
         real = [dv for dv in p["divs"] if not (dv["a"][1:2] == ["PROCESS_EXIT"] or dv["b"][1:2] == ["PROCESS_EXIT"])]
         if exits_differ and not real:
             raise MachineryError(
-                f"pair {p['id']}: main.py ended differently ({p['ra']['exit']} / {p['rb']['exit']}) although no row "
+                f"pair {p['id']}: the processes ended differently ({p['ra']['exit']} / {p['rb']['exit']}) although no row "
                 f"differs before the end of the traces\n{p['ra'].get('stderr_tail', '')}\n{p['rb'].get('stderr_tail', '')}")
+        mode = p["world"]["mode"]
         for dv in real:
-            groups.setdefault(key_of(dv), []).append((p, dv))
+            # finding keys of the YAML / JSON mode are unchanged; the other modes carry their name
+            key = key_of(dv) if mode == "workload_file" else f"{mode}:{key_of(dv)}"
+            groups.setdefault(key, []).append((p, dv))
     keys = {}
     for key, lst in sorted(groups.items()):
         lst.sort(key=lambda x: (_world_size(x[0]["world"]), x[0]["id"]))
@@ -607,14 +742,15 @@ def report(res, recs, skipped, results):
         n_diff = sum(1 for q, _ in lst if q["kind"] == "property")
         n_same = sum(1 for q, _ in lst if q["kind"] == "same_hash")
         keys[key] = {"different_hash_seed_pairs": n_diff, "same_hash_seed_pairs": n_same,
+                     "modes": sorted({q["world"]["mode"] for q, _ in lst}),
                      "policies": sorted({q["world"]["policy"] for q, _ in lst})}
         det = _detail(p, dv)
         det["other_pairs"] = [q["id"] for q, _ in lst[1:40]]
         det["seen_with_equal_hash_seeds"] = n_same > 0
         res.violate(
             dv["clause"],
-            f"same world, flags and --random_seed, two fresh processes: traces diverge at row {dv['k']} [{key}] "
-            f"({len(lst)} pair(s); {n_same} of them with equal PYTHONHASHSEED)",
+            f"[{p['world']['mode']}] same input files, flags and --random_seed, two fresh processes: traces diverge at row "
+            f"{dv['k']} [{key}] ({len(lst)} pair(s); {n_same} of them with equal PYTHONHASHSEED)",
             det, key=key)
     res.extra["divergence_keys"] = keys
     # per kind
@@ -634,47 +770,66 @@ def report(res, recs, skipped, results):
         if first:
             cl[first["clause"]] = cl.get(first["clause"], 0) + 1
     res.extra["negative_control_clauses"] = cl
-    if neg and not any(p["divs"] for p in neg):
-        raise MachineryError("no negative-control pair (different --random_seed) differs: the comparator is vacuous")
+    for mode in sorted({p["world"]["mode"] for p in neg}):
+        if not any(p["divs"] for p in neg if p["world"]["mode"] == mode):
+            raise MachineryError(f"mode {mode}: no negative-control pair (different --random_seed) differs: the "
+                                 "comparator is vacuous")
     clause_counts = {c: 0 for c in CLAUSES}
     for p in recs:
         for dv in p["divs"]:
             clause_counts[dv["clause"]] = clause_counts.get(dv["clause"], 0) + 1
     res.extra["clauses_reported_all_pairs"] = clause_counts
-    # coverage of randomness
+    mode_report(res, recs, skipped, worlds)
+    # coverage of randomness (YAML / JSON descriptions; the other modes: coverage.modes[...].features)
     feats, nontrivial, seen = {}, 0, set()
     per_policy = {}
     for p in recs:
         w = p["world"]
-        if w["k"] in seen:
+        if w["id"] in seen:
             continue
-        seen.add(w["k"])
+        seen.add(w["id"])
+        per_policy[w["policy"]] = per_policy.get(w["policy"], 0) + 1
+        if w["mode"] != "workload_file":
+            nontrivial += int(_ran(w, p))
+            continue
         fs = random_features(w, p["ra"])
         if fs:
             nontrivial += 1
         for f in fs:
             feats[f] = feats.get(f, 0) + 1
-        per_policy[w["policy"]] = per_policy.get(w["policy"], 0) + 1
     res.extra["distinct_nontrivial"] = nontrivial
     res.extra["evaluations"] = len(recs)
     res.extra["worlds_compared"] = len(seen)
     res.extra["worlds_with_random_feature"] = feats
     res.extra["worlds_per_policy"] = per_policy
-    res.extra["resource_names_per_pool"] = sorted({p["world"]["n_resource_names"] for p in recs})
+    res.extra["resource_names_per_pool"] = sorted({p["world"]["n_resource_names"] for p in recs
+                                                   if p["world"]["mode"] == "workload_file"})
     crashes = {}
     for o in results.values():
         if o["exit"][0] != "ok":
             crashes[o["exit"][1][:120]] = crashes.get(o["exit"][1][:120], 0) + 1
     res.extra["abnormal_exits"] = crashes
-    for p in (prop[:4] + [x for x in prop if x["kind"] == "same_hash"][:1] + neg[:2]):
+    picked = []
+    for p in prop:  # two pairs of every mode, then controls
+        m = p["world"]["mode"]
+        want = 2 if m in ("workload_file", "alibaba_replay") else 0 if m.startswith("stub_") else 1
+        if sum(1 for x in picked if x["world"]["mode"] == m) < want and p["kind"] == "property":
+            picked.append(p)
+    picked += [x for x in prop if x["kind"] == "same_hash"][:1] + neg[:1]
+    for p in picked:
         w = p["world"]
-        res.samples.append({
-            "pair": p["id"], "kind": p["kind"], "policy": w["policy"], "flags": w["flags"],
-            "graphs": [f"{g['name']}:{g['policy']}:var{g['variance']}:cond{len(g['conditional'])}" for g in w["graphs"]],
-            "rows": [p["end"]["len_a"], p["end"]["len_b"]], "rows_compared": p["end"]["compared"],
-            "random_features": random_features(w, p["ra"]),
-            "verdict": "identical on Obs" if not p["divs"] else
-                       "; ".join(f"row {dv['k']}: {key_of(dv)}" for dv in p["divs"])})
+        smp = {"pair": p["id"], "kind": p["kind"], "mode": w["mode"], "policy": w["policy"], "flags": w["flags"],
+               "rows": [p["end"]["len_a"], p["end"]["len_b"]], "rows_compared": p["end"]["compared"],
+               "run_shape_releases_placements_finished_end": [p["end"]["shape_a"], p["end"]["shape_b"]],
+               "exit": [p["ra"]["exit"], p["rb"]["exit"]],
+               "verdict": "identical on Obs" if not p["divs"] else
+                          "; ".join(f"row {dv['k']}: {key_of(dv)}" for dv in p["divs"])}
+        if w["mode"] == "workload_file":
+            smp["graphs"] = [f"{g['name']}:{g['policy']}:var{g['variance']}:cond{len(g['conditional'])}" for g in w["graphs"]]
+            smp["random_features"] = random_features(w, p["ra"])
+        else:
+            smp["input_features"] = w.get("features", {})
+        res.samples.append(smp)
 
 
 def run(tier: str) -> CheckResult:
@@ -682,15 +837,21 @@ def run(tier: str) -> CheckResult:
     res.level = "exploration"
     res.assumptions = list(ASSUMPTIONS)
     worlds, runs, pairs = plan(tier)
+    n_file = sum(1 for w in worlds if w["mode"] == "workload_file")
     res.extra["rule"] = (
-        f"worlds w0000..w{len(worlds)-1:04d} of harness/c09.gen_world (VERIF_SEED={seed()}; policy cycles EDF/FIFO/LSF/"
-        "Clockwork with --scheduler_runtime=0, first graph cycles poisson/gamma/closed_loop/fixed/periodic, deadline "
-        "variance, conditional shapes, --runtime_variance, >= 3 resource names per worker); every world: main.py twice "
-        "in fresh processes with one --random_seed and two PYTHONHASHSEED values; some worlds a third run with the first "
-        "hash seed (control) and one with another --random_seed (negative control); each pair compared row by row by "
-        "TLC (Determinism.tla, invariant C09_SameChoices)")
+        f"mode workload_file: worlds w0000..w{n_file-1:04d} of harness/c09.gen_world (VERIF_SEED={seed()}; policy cycles "
+        "EDF/FIFO/LSF/Clockwork with --scheduler_runtime=0, first graph cycles poisson/gamma/closed_loop/fixed/periodic, "
+        "deadline variance, conditional shapes, --runtime_variance, >= 3 resource names per worker); the other workload "
+        "modes: generators of harness/c09_modes.py (alibaba_replay: pickled Alibaba traces, DAGs listed in topological / "
+        "reverse / shuffled / joins-first order, one file with fixed / periodic / poisson / gamma / fixed_gamma releases or "
+        "several labelled files, EDF/FIFO/LSF/BranchPrediction/Clockwork; lib_pylot and lib_clockwork_bursty: the loaders "
+        "main.py constructs but does not run, through harness/c09_driver.py; stub_*: execution modes of main.py that end "
+        "before simulating); every world: the program twice in fresh processes with one --random_seed and two "
+        "PYTHONHASHSEED values; some worlds of every mode a third run with the first hash seed (control) and one with "
+        "another --random_seed (negative control); each pair compared row by row by TLC (Determinism.tla, invariant "
+        "C09_SameChoices); a mode whose runs did not simulate anything (RunShape) is a machinery failure")
     recs, skipped, results = compare(tier, worlds, runs, pairs, res)
-    report(res, recs, skipped, results)
+    report(res, recs, skipped, results, worlds)
     if skipped:
         res.notes.append(f"{len(skipped)} pair(s) skipped: both runs ended abnormally in the same way (see coverage.skipped)")
     return res
@@ -702,19 +863,24 @@ def replay(d) -> int:
     w = det.get("world")
     if not w:
         return 0
+    if "files" not in w:  # counterexamples stored before the workload modes were added
+        w = {"mode": "workload_file", "program": "main.py",
+             "files": [{"name": w["workload_file"], "fmt": w["workload_file"].split(".")[-1], "content": w["workload"]},
+                       {"name": w["workers_file"], "fmt": w["workers_file"].split(".")[-1], "content": w["workers"]}],
+             "flagfile": [ln for ln in w["flagfile"]
+                          if not ln.startswith(("--workload_profile_path", "--worker_profile_path"))]
+                         + ["--workload_profile_path={DIR}/" + w["workload_file"],
+                            "--worker_profile_path={DIR}/" + w["workers_file"]]}
+    entry = c09_modes.DRIVER if w.get("program") == os.path.basename(c09_modes.DRIVER) else "main.py"
     with Scratch(prefix="erdosverif_c09r_") as scratch:
-        wfmt, cfmt = w["workload_file"].split(".")[-1], w["workers_file"].split(".")[-1]
-        wpath, cpath = os.path.join(scratch, w["workload_file"]), os.path.join(scratch, w["workers_file"])
-        _dump(w["workload"], wpath, wfmt)
-        _dump(w["workers"], cpath, cfmt)
-        lines = [ln for ln in w["flagfile"] if not ln.startswith(("--workload_profile_path", "--worker_profile_path"))]
-        lines += [f"--workload_profile_path={wpath}", f"--worker_profile_path={cpath}"]
+        for f in w["files"]:
+            c09_modes.write_file(os.path.join(scratch, f["name"]), f["fmt"], f["content"])
         ff = os.path.join(scratch, "flags.conf")
         with open(ff, "w") as f:
-            f.write("\n".join(lines) + "\n")
+            f.write("\n".join(ln.replace("{DIR}", scratch) for ln in w["flagfile"]) + "\n")
         (s1, s2), (h1, h2) = det["random_seed"], det["hash_seeds"]
         with ThreadPoolExecutor(2) as ex:
-            A, B = list(ex.map(run_main, [("a", scratch, ff, s1, h1), ("b", scratch, ff, s2, h2)]))
+            A, B = list(ex.map(run_main, [("a", scratch, ff, s1, h1, entry), ("b", scratch, ff, s2, h2, entry)]))
         pair = {"id": "replay", "mask": [], "a": trace_of(A), "b": trace_of(B)}
         _, divs, ends = tlc_batch((scratch, 0, [pair]))
     for dv in divs.get("replay", []):
